@@ -15,7 +15,7 @@ every program") is NOT a Lean theorem: the checker is not modelled as a whole.  
   before `ExprSynthesizer.visit_Name`, for the entry block and for successor blocks), block signatures
   (`check_rows_match`, under the same-keys hypothesis that C08 `no_internal_error` establishes).
 
-Everything else (100 of the 120 sites on the baseline tree) is covered only by the crash search of
+Everything else (113 of the 120 sites on the baseline tree) is covered only by the crash search of
 `harness/props/c02.py`. -/
 namespace GuppyVerif.C02
 
@@ -37,13 +37,12 @@ theorem id_lists_faithful :
 theorem classification_functional : classifiedIds.Nodup := by
   decide +kernel
 
-/-- each guard names one of these theorems.  That the four theorems of other properties exist is checked by
+/-- each guard names one of these theorems.  That the two theorems of other properties exist is checked by
     `Lemmas/C02Guards.lean` (a separate module importing `Props/C03` and `Props/C08`, built by the check on every run:
     a missing theorem there breaks the tie; kept out of this file so that another property's work in progress
     cannot break these theorems); the two of this file are pinned by `example`s at its end. -/
 theorem guard_theorem_names (g : Guard) : g.theorem ∈
     ["GuppyVerif.UseDef.no_internal_error", "GuppyVerif.Builder.two_successors_have_pred",
-     "GuppyVerif.Builder.bld_residual", "GuppyVerif.Builder.break_continue_target_innermost_loop",
      "GuppyVerif.C02.typeCheckArgs_never_internal", "GuppyVerif.C02.block_names_resolved"] := by
   cases g <;> simp [Guard.theorem]
 
